@@ -183,6 +183,15 @@ def ops3(n: int, op1: int, a1: str, b1: str, v1: int,
     s = slice_no(-1)
     if s >= 0 and (op1 != s // 6 or op2 != s % 6):
         return True
+    if n not in (0, 3):
+        return True
+    # three operations: set_attribute with 3 value kinds (str, int, a node),
+    # has_attribute_type with 3 types (str, int, list)
+    for op, v in ((op1, v1), (op2, v2), (op3, v3)):
+        if op == 2 and v not in (0, 1, 5):
+            return True
+        if op == 5 and v not in (0, 1, 5):
+            return True
     return _run_ops(n, [(op1, a1, b1, v1), (op2, a2, b2, v2),
                         (op3, a3, b3, v3)])
 
@@ -513,8 +522,9 @@ CONDITIONS = [
      'expect': 'REFUTED', 'bound': 'reachability twin of ops2'},
     {'fn': 'ops3', 'slices': list(range(36)), 'quick': None,
      'thorough': 900,
-     'bound': 'all sequences of 3 operations (as ops2); one slice per pair '
-              'of first two operations'},
+     'bound': 'all sequences of 3 operations on a mapping of 0 or 3 keys '
+              '(set with 3 value kinds, has_attribute_type with 3 types); '
+              'one slice per pair of first two operations'},
     {'fn': 'classify', 'quick': 60, 'thorough': 120,
      'twin': 'classify_reach',
      'bound': 'node kind in {scalar, seq, map} x FREE tag string (len<=24) x '
